@@ -402,7 +402,8 @@ def gen_fault(rng, version, kind=None, first=True):
         fx["pre_rst"] = rng.random() < 0.3
     elif kind == "refuse":
         fx["pre_close"] = True
-        fx["conn"] = [["refuse", rng.choice([E, 0.3])]]
+        fx["conn"] = [[rng.choice(["refuse", "refuse", "oserror:113", "oserror:101", "oserror:24", "oserror:105", "oserror:99"]),
+                       rng.choice([E, 0.3])]]
     elif kind == "hang":
         fx["pre_close"] = True
         fx["conn"] = [["hang", 0]]
